@@ -172,3 +172,57 @@ Proof.
     + rewrite E in Hc. rewrite Eb in Hc. injection Hc as <-. eexists. split; [reflexivity|]. apply I2. exact Hin.
     + exists c. auto.
 Qed.
+
+(* ---------- include_bbox_pyramid ---------- *)
+Lemma include_total a b : level a = level b -> exists c, include_bbox a b = Ok c /\ level c = level a.
+Proof.
+  intros H. unfold include_bbox. rewrite H, N.eqb_refl. cbn [negb].
+  destruct (is_empty b); [exists a; auto|]. destruct (is_empty a); [exists b; auto|]. eexists; split; reflexivity.
+Qed.
+
+Lemma py_include_bbox_spec p b : wfp p -> wf b -> level b <= 31 ->
+  exists r, py_include_bbox p b = Ok r /\ wfp r /\
+    (forall z x y, In_pyr p z x y -> In_pyr r z x y) /\ (forall x y, In_box b x y -> In_pyr r (level b) x y).
+Proof.
+  intros [Lp Wp] Wb Hl. unfold py_include_bbox, py_level.
+  destruct (nth_error p (N.to_nat (level b))) as [a|] eqn:Ea; [|apply nth_error_None in Ea; lia].
+  destruct (Wp _ a Ea) as [Wa La]. rewrite N2Nat.id in La.
+  destruct (include_total a b La) as (c & Hc & Lc). cbn [obind]. rewrite Hc. cbn [unwrap obind].
+  destruct (include_spec a b c Wa Wb Hc) as (Hsup & _ & Wc).
+  assert (Hlen : (N.to_nat (level b) < length p)%nat) by lia.
+  eexists. split; [reflexivity|]. split; [|split].
+  - split; [rewrite length_set_nth; exact Lp|]. intros i d Hd. rewrite nth_set_nth in Hd by exact Hlen.
+    destruct (Nat.eqb_spec i (N.to_nat (level b))) as [->|Hne]; [injection Hd as <-; split; [exact Wc|rewrite N2Nat.id; congruence]|apply (Wp i d Hd)].
+  - intros z x y (d & Hd & Hin). unfold In_pyr. rewrite nth_set_nth by exact Hlen.
+    destruct (Nat.eqb_spec (N.to_nat z) (N.to_nat (level b))) as [E|Hne]; [|exists d; auto].
+    rewrite E, Ea in Hd. injection Hd as <-. eexists. split; [reflexivity|]. apply Hsup. left; exact Hin.
+  - intros x y Hin. unfold In_pyr. rewrite nth_set_nth by exact Hlen. rewrite Nat.eqb_refl. eexists. split; [reflexivity|]. apply Hsup. right; exact Hin.
+Qed.
+
+Lemma py_include_all_spec bs : forall p, wfp p -> Forall (fun b => wf b /\ level b <= 31) bs ->
+  exists r, py_include_all p bs = Ok r /\ wfp r /\
+    (forall z x y, In_pyr p z x y -> In_pyr r z x y) /\
+    (forall b, In b bs -> forall x y, In_box b x y -> In_pyr r (level b) x y).
+Proof.
+  induction bs as [|b bs IH]; intros p Wp Hall.
+  - exists p. split; [reflexivity|]. split; [exact Wp|]. split; [auto|]. intros b [].
+  - inversion Hall as [|? ? [Wb Lb] Hall']; subst. cbn [py_include_all].
+    destruct (is_empty b) eqn:Eb.
+    + destruct (IH p Wp Hall') as (r & Hr & Wr & Hm & Hb). exists r. split; [exact Hr|]. split; [exact Wr|]. split; [exact Hm|].
+      intros b' [<-|Hin] x y Hbox; [exfalso; revert Hbox; apply (proj1 (empty_spec b) Eb)|apply (Hb b' Hin x y Hbox)].
+    + destruct (py_include_bbox_spec p b Wp Wb Lb) as (p' & Hp' & Wp' & Hm1 & Hb1). rewrite Hp'. cbn [obind].
+      destruct (IH p' Wp' Hall') as (r & Hr & Wr & Hm & Hb). exists r. split; [exact Hr|]. split; [exact Wr|]. split; [intros z x y H; apply Hm, Hm1, H|].
+      intros b' [<-|Hin] x y Hbox; [apply Hm, Hb1, Hbox|apply (Hb b' Hin x y Hbox)].
+Qed.
+
+Theorem py_include_pyramid_spec p q : wfp p -> wfp q ->
+  exists r, py_include_pyramid p q = Ok r /\ wfp r /\
+    forall z x y, In_pyr p z x y \/ In_pyr q z x y -> In_pyr r z x y.
+Proof.
+  intros Wp [Lq Wq]. unfold py_include_pyramid.
+  destruct (py_include_all_spec q p Wp) as (r & Hr & Wr & Hm & Hb).
+  { apply Forall_forall. intros b Hb. destruct (In_nth_error q b Hb) as (i & Hi). destruct (Wq i b Hi) as [Wb Lb].
+    split; [exact Wb|]. assert (i < 32)%nat by (rewrite <- Lq; apply nth_error_Some; congruence). lia. }
+  exists r. split; [exact Hr|]. split; [exact Wr|]. intros z x y [H|(b & Hb' & Hin)]; [apply Hm, H|].
+  destruct (Wq _ b Hb') as [_ Lb]. rewrite N2Nat.id in Lb. rewrite <- Lb. apply (Hb b (nth_error_In _ _ Hb') x y Hin).
+Qed.
